@@ -1459,6 +1459,20 @@ def do_reverse(value: str | t.Iterable[V]) -> str | t.Iterable[V]:
             raise FilterArgumentError("argument must be iterable") from e
 
 
+@async_variant(do_reverse)  # type: ignore
+async def async_do_reverse(
+    value: "str | t.AsyncIterable[V] | t.Iterable[V]",
+) -> "str | t.Iterable[V]":
+    if hasattr(value, "__aiter__"):
+        # Like the fallback of the sync variant for iterables that cannot be
+        # reversed in place: collect, then reverse the list.
+        rv = await auto_to_list(value)
+        rv.reverse()
+        return rv
+
+    return do_reverse(value)  # type: ignore
+
+
 @pass_environment
 def do_attr(environment: "Environment", obj: t.Any, name: str) -> Undefined | t.Any:
     """Get an attribute of an object. ``foo|attr("bar")`` works like
@@ -1898,7 +1912,7 @@ FILTERS = {
     "reject": do_reject,
     "rejectattr": do_rejectattr,
     "replace": do_replace,
-    "reverse": do_reverse,
+    "reverse": async_do_reverse,
     "round": do_round,
     "safe": do_mark_safe,
     "select": do_select,
